@@ -278,6 +278,13 @@ def make_params(scn):
     if mt != "int":
         # the density arrives as a numpy integer scalar (drawn with numpy, read from an array)
         scn = dict(scn, m={"np.int64": np.int64, "np.int32": np.int32, "np.intp": np.intp, "np.uint8": np.uint8}[mt](scn["m"]))
+    nt = scn.get("num_types")
+    if nt:
+        # the same numbers handed over as numpy scalars / Python ints (r = 3 instead of 3.0, itersLimit as np.int64 ...)
+        conv = {"np": (np.float64, np.float64, np.int64), "py": (float, float, int)}[nt]
+        r_ = scn["r"]
+        scn = dict(scn, eps=conv[0](scn["eps"]), r=(int(r_) if nt == "py" and float(r_).is_integer() else (conv[1](r_) if float(conv[1](r_)) == float(r_) else r_)),
+                   iters=conv[2](scn["iters"]))
     if how == "assign":
         p = SolverParameters()
         p.eps = scn["eps"]
